@@ -4,20 +4,21 @@ import "cvssmc/internal/ev"
 
 // RaceResult is what the free-running -race pass reports.
 type RaceResult struct {
-	Scenarios   int      `json:"scenarios"`
-	Goroutines  int      `json:"goroutines"`
-	Iterations  int      `json:"iterations_per_goroutine"`
-	Operations  int64    `json:"operations"`
-	Races       int      `json:"race_reports"`
-	Mismatches  []string `json:"result_mismatches"`
-	Crash       string   `json:"crash,omitempty"`
-	FirstReport string   `json:"first_report,omitempty"`
-	RaceEnabled bool     `json:"race_detector_enabled"`
+	Scenarios        int      `json:"scenarios"`
+	Goroutines       int      `json:"goroutines"`
+	Iterations       int      `json:"iterations_per_goroutine"`
+	Operations       int64    `json:"operations"`
+	Races            int      `json:"race_reports"`
+	Mismatches       []string `json:"result_mismatches"`
+	Crash            string   `json:"crash,omitempty"`
+	FirstReport      string   `json:"first_report,omitempty"`
+	RaceEnabled      bool     `json:"race_detector_enabled"`
+	StressOperations int64    `json:"stress_stage_operations,omitempty"`
 }
 
 // ApplyRace merges a race-pass result into a C16 run.
 func ApplyRace(r *ev.Run, res RaceResult) {
-	r.Set("race_pass", map[string]any{"scenarios": res.Scenarios, "goroutines": res.Goroutines, "iterations_per_goroutine": res.Iterations, "operations": res.Operations, "race_reports": res.Races, "race_detector_enabled": res.RaceEnabled, "exhaustive": false})
+	r.Set("race_pass", map[string]any{"scenarios": res.Scenarios, "goroutines": res.Goroutines, "iterations_per_goroutine": res.Iterations, "operations": res.Operations, "race_reports": res.Races, "race_detector_enabled": res.RaceEnabled, "exhaustive": false, "stress_stage_operations_without_detector_64_goroutines": res.StressOperations})
 	if res.Races > 0 {
 		r.Violate(ev.Violation{Kind: "data-race", Case: map[string]any{"pass": "free-running -race pass over all scenarios"}, Observed: res.FirstReport, Expected: "no race report"})
 	}
@@ -28,3 +29,7 @@ func ApplyRace(r *ev.Run, res RaceResult) {
 		r.Violate(ev.Violation{Kind: "concurrent-crash", Case: map[string]any{"pass": "free-running -race pass"}, Observed: res.Crash, Expected: "all operations return"})
 	}
 }
+
+// Z renders a score without the sign of a zero: the v2 base equation yields -0 for a vector
+// without impact, and -0 == 0; a result that differs only in that sign is not a different result.
+func Z(x float64) float64 { return x + 0 }
